@@ -62,7 +62,10 @@ class Headers:
         max_checkpointed_height = max(self.checkpoints.keys() or [-1]) + 1000
         if bytes_size % self.header_size:
             log.warning("Reader file size doesnt match header size. Repairing, might take a while.")
-            await self.repair()
+            # checkpointed chunks that were not downloaded yet are all-zero placeholders: they cannot be link
+            # checked (a scan from genesis would take the first one for corruption and truncate the whole file)
+            # and need not be, a chunk is verified against its checkpoint when it is fetched
+            await self.repair(start_height=max_checkpointed_height if self.checkpoints else 0)
         else:
             # try repairing any incomplete write on tip from previous runs (outside of checkpoints, that are ok)
             await self.repair(start_height=max_checkpointed_height)
